@@ -6,7 +6,11 @@
 // newConn) and a read-only state accessor.
 package websocket
 
-import "net"
+import (
+	"net"
+
+	"github.com/lesismal/nbio/nbhttp"
+)
 
 // VerifSeqConnOpt are the post-construction settings of Upgrader.Upgrade that have no public
 // setter.
@@ -15,11 +19,18 @@ type VerifSeqConnOpt struct {
 	RemoteCompress bool // what the handshake negotiated (enables write compression)
 	ReleasePayload bool // Upgrade: wsc.releasePayload = u.ReleasePayload || Engine.ReleaseWebsocketPayload
 	BlockingMod    bool // Upgrade scenarios 2.1.2 / 3.2 / 4 (callbacks through Engine.SyncCall)
+	// Serving, when set, is the engine that serves the connection: Upgrade scenarios 1 / 2.2 and
+	// Dialer.DialContext create the Conn from the Upgrader (whose Engine may be another one, e.g.
+	// DefaultEngine after NewUpgrader()) and only then set wsc.Engine = parser.Engine.
+	Serving *nbhttp.Engine
 }
 
 // VerifSeqConn builds a Conn the way Upgrade (server) or Dial (client) does, around c.
 func VerifSeqConn(u *Upgrader, c net.Conn, o VerifSeqConnOpt) *Conn {
 	wsc := newConn(u, c, "", o.RemoteCompress, false, o.Client)
+	if o.Serving != nil {
+		wsc.Engine = o.Serving // exactly the statement of Upgrade / DialContext after the construction
+	}
 	wsc.isBlockingMod = o.BlockingMod
 	wsc.releasePayload = o.ReleasePayload
 	if !wsc.releasePayload && wsc.Engine != nil {
